@@ -4,7 +4,7 @@
 From Coq Require Import List QArith Qabs ZArith Lia.
 Import ListNotations.
 From Coq Require Import Permutation.
-From PP Require Import Model.C28 Model.C31 Proofs.C28 Proofs.C31 Proofs.C31_sort Proofs.C31_pip2 Proofs.C31_line Proofs.C31_polyh Proofs.C31_planar.
+From PP Require Import Model.C28 Model.C31 Proofs.C28 Proofs.C31 Proofs.C31_sort Proofs.C31_pip2 Proofs.C31_line Proofs.C31_polyh Proofs.C31_planar Proofs.C31_plane.
 Open Scope Q_scope.
 
 (* is_ccw_polygon: for EVERY polygon (any vertex list) the answer is True exactly when the
@@ -178,6 +178,20 @@ Theorem C31_planar_auto :
      (length pts <= 2)%nat <-> points_are_planar_auto tn tol pts = PValueErr).
 Proof. split; [exact planar_auto_accepts|exact planar_auto_too_few]. Qed.
 Print Assumptions C31_planar_auto.
+
+(* sort_point_plane, model level: with the rotation onto the xy-plane transcribed exactly
+   (unit normal, sin of the rotation angle supplied and checked in the tie) and arctan2 keys
+   compared exactly by half-plane sectors and cross products (atan2_ltb), the returned index
+   list is a permutation of 0..n-1 along which the arctan2 key never strictly decreases:
+   an angular ordering of the points around the centre, cut at angle +-pi.  A point straight
+   "below" the centre (first in-plane offset 0, second negative) has the largest key (pi). *)
+Theorem C31_sort_plane :
+  forall n s pts centre,
+    let idx := sort_point_plane n s pts centre in
+    Permutation idx (seq 0 (length pts)) /\
+    no_descent _ atan2_ltb (map (fun i => nth i (plane_keys n s pts centre) (0, 0)) idx).
+Proof. exact sort_point_plane_spec. Qed.
+Print Assumptions C31_sort_plane.
 
 (* point_in_polyhedron, transcribed decision logic: a test point lying in the supporting
    PLANE of any triangle of the surface (wherever in that plane) makes solid_angle raise,
@@ -359,3 +373,12 @@ Proof.
   - intros l Hl. cbn in Hl. destruct Hl as [<- | [<- | [<- | [<- | []]]]]; cbn; congruence.
   - vm_compute. reflexivity.
 Qed.
+
+Example C31_nonvacuous_sort_plane :
+  sort_point_plane (0, 0, 1) 0 [(1, 0, 0); (0, 1, 0); (-1, 0, 0); (0, -1, 0); (1, 1, 0)] (0, 0, 0)
+  = [2; 1; 4; 0; 3]%nat /\
+  atan2_sector (0, -1) = 3%nat /\
+  (* a tilted plane: unit normal (3,4,12)/13, sin = 5/13 *)
+  agree_plane [1; 0; 2]%nat (3 # 13, 4 # 13, 12 # 13) (5 # 13)
+              [(4, -3, 0); (36, 48, -25); (-4, 3, 0)] (0, 0, 0) = true.
+Proof. repeat split; vm_compute; reflexivity. Qed.
